@@ -11,7 +11,7 @@ LEVEL_NOTE = ("Theorems for every pattern, every record with a unique matching s
               "generic classes over every enzyme geometry, user signatures and registry plasmids; the oracle compares "
               "every rotation with the unrotated record (uniqueness decided by an independent enumerator).")
 
-IMPORTS = """From MV Require Import Base Regex Typing Assembly Pipeline KitLookup Glue.
+IMPORTS = """From MV Require Import Base Regex Typing Assembly Pipeline KitLookup Glue SrcGlue.
 From Coq Require Import String.
 Open Scope string_scope.
 Definition ostr_ok (a : option (list letter)) (b : option string) : bool :=
@@ -23,11 +23,20 @@ Definition obs_ok (c : cls) (s : list letter) (o : obs_t) : bool :=
   let '(v', u', d', t', p') := observe1 c s in
   Bool.eqb v v' && ostr_ok u' u && ostr_ok d' d && ostr_ok t' t &&
   match p with Some x => ostr_ok p' x | None => true end.
+Definition src_obs_ok (c : cls) (s : list letter) (o : obs_t) : bool :=
+  let '(v, u, d, t, p) := o in
+  let '(v', u', d', t', p') := src_observe c s in
+  Bool.eqb v v' && ostr_ok u' u && ostr_ok d' d && ostr_ok t' t &&
+  match p with Some x => ostr_ok p' x | None => true end.
 Definition check (c : cls * list letter * list (Z * obs_t)) : bool :=
-  let '(cl, s, l) := c in forallb (fun x => obs_ok cl (rotr (fst x) s) (snd x)) l.
+  let '(cl, s, l) := c in
+  forallb (fun x => obs_ok cl (rotr (fst x) s) (snd x)) l &&
+  (* the translated accessors on the first rotations of the case (they recompute the match per query) *)
+  (if Nat.leb (List.length s) 400 then forallb (fun x => src_obs_ok cl (rotr (fst x) s) (snd x)) (firstn 5 l) else true).
 Definition check_raw (c : (cls * string) * list (cls * string) * asm_obs) : bool :=
   let '((vc, v), ms, obs) := c in
-  asm_obs_ok (assemble_raw vc (dna v) (map (fun x => (fst x, dna (snd x))) ms)) obs.
+  let raw := map (fun x => (fst x, dna (snd x))) ms in
+  asm_obs_ok (assemble_raw vc (dna v) raw) obs && asm_obs_ok (src_assemble vc (dna v) raw) obs.
 """
 
 IUPAC = {"A": "A", "C": "C", "G": "G", "T": "T", "R": "AG", "Y": "CT", "S": "CG", "W": "AT", "K": "GT",
